@@ -224,16 +224,38 @@ def rule_edge(ctx):
                         res.instance("LinearSearch : unit of the admission test")
                         res.violate("LinearSearch : admission-in-plain-distance", "the linear scan admits a point by `%s`, a comparison of plain distances, while the tree indices compare reduced distances with the reduced radius: the two predicates round differently, so the kinds disagree on points exactly on the radius" % r_.e(x)[:60], fn_loc(fn, x.get("ln")))
     # ball tree: guard of the push into the result heap, against the radius parameter
-    fns = [f for f in F.find_fns(name="nn_helper", krate="linfa_nn")]
-    if not fns:
-        res.missing_anchor("BallTreeIndex::nn_helper")
-    for fn in fns:
+    # (anchored in the public within_range: the helper it hands the radius to is followed, whatever it is called)
+    wr = [f for f in F.find_fns(name="within_range", krate="linfa_nn") if (f["d"].get("self_adt") or "").endswith("BallTreeIndex")]
+    if not wr:
+        res.missing_anchor("BallTreeIndex::within_range")
+    fns = []
+    for w in wr:
+        c = w["crate"]
+        wparams = [b for p_ in w["params"] for b in pat_bindings(p_)]
+        rng = next((b for b in wparams if b["name"] == "range"), wparams[-1] if wparams else None)
+        derived = {rng["local"]} if rng else set()
+        for y in walk(w["body"]):
+            if y.get("k") == "LetStmt" and y.get("init") is not None and y["pat"].get("k") == "Bind" and any(z.get("k") == "Path" and z.get("local") in derived for z in walk(y["init"])):
+                derived.add(y["pat"]["local"])
+        for y in walk(w["body"]):
+            if y.get("k") == "MethodCall" and peel_refs(y["recv"]).get("name") == "self":
+                g = next((h for h in c.fns if h["def"] in (y.get("inst"), y.get("def"))), None)
+                if g is None:
+                    continue
+                for pos, a in enumerate(y["args"]):
+                    if any(z.get("k") == "Path" and z.get("local") in derived for z in walk(a)):
+                        gp = [b for p_ in g["params"][1:] for b in pat_bindings(p_)]
+                        if pos < len(gp):
+                            fns.append((g, gp[pos]["name"]))
+    if wr and not fns:
+        fns = [(w, "range") for w in wr]
+    for fn, radius_name in fns:
         c = fn["crate"]
         conds = []
         for n in walk(fn["body"]):
-            if n.get("k") == "If" and any(x.get("k") == "MethodCall" and x["name"] == "push" and peel_refs(x["recv"]).get("name") == "out" for x in walk(n["then"])):
+            if n.get("k") == "If" and any(x.get("k") == "MethodCall" and x["name"] == "push" for x in walk(n["then"])):
                 conds += [x for x in walk(n["c"]) if x.get("k") == "Binary"]
-        op, node = admit_relation(c, conds, lambda s: s.strip("*&() ") == "dist", lambda s: "max_radius" in s)
+        op, node = admit_relation(c, conds, lambda s: s.strip("*&() ") == "dist", lambda s, rn=radius_name: rn in s)
         rel["BallTree"] = op
         locs["BallTree"] = fn_loc(fn, node["ln"]) if node else fn_loc(fn)
     # k-d tree: the locked dependency's admission test, intersected with linfa's own post-filter
